@@ -5,7 +5,9 @@
 //
 // case <id> svc=<0|1> [obs=1]
 //                         svc=0: channel made like examples/protobuf/rpc/client.cc (new RpcChannel; setConnection)
-//                         svc=1: channel made by the real RpcServer::onConnection (registerService(TestService))
+//                         svc=1: channel made by the real RpcServer::onConnection (registerService(TestService)):
+//                                owned by the connection's context, destroyed by onConnection on DOWN
+//                         svc=2: user-owned channel (as svc=0) with setServices(the server's table)
 //                         obs=1: observation mode: a CallMethod with response == NULL (outside the contract of
 //                                google::protobuf::RpcChannel::CallMethod) is made all the same; without it the
 //                                driver, like the model, REJECTS such a call (prints `rejected`, does nothing)
@@ -25,6 +27,11 @@
 //   REQ id svc meth payload         peer sends a REQUEST frame ("-" = field absent)
 //   DONE k data                     the test service completes deferred request k
 //   OTHER id                        peer sends a frame of type ERROR
+//   DOWN                            the peer closes; the connection reads EOF: handleClose -> connection callback
+//                                   (DOWN) -> close callback -> connectDestroyed.  In svc=1 mode RpcServer::onConnection
+//                                   drops the channel (~RpcChannel deletes what is outstanding: events del:/drop:).
+//                                   Afterwards RESP/REQ/OTHER are rejected (nothing is delivered on a dead connection),
+//                                   and so are calls on a destroyed channel; DONE runs the service's callback all the same.
 // end
 // payload ::= V<hex> | V-  (TestMsg with that data, serialized by protobuf)  |  X<hex> (raw bytes protobuf rejects) | -
 // One output line per op:  ok|rejected ev=<e1,e2,..> next=<id_> outs=<id:rXdY,..> pend=<k,..>
@@ -113,9 +120,9 @@ struct CallRec
   google::protobuf::Closure* done;
   string sentinel;
   int runs;
-  bool closureDead, respDead, registered, leakReported, burst;
+  bool closureDead, respDead, registered, leakReported, burst, dropReported;
   CallRec() : resp(NULL), done(NULL), runs(0), closureDead(false), respDead(false), registered(false),
-              leakReported(false), burst(false) {}
+              leakReported(false), burst(false), dropReported(false) {}
 };
 static std::vector<CallRec*> g_calls;
 
@@ -380,6 +387,7 @@ static void doCall(CallRec* rec, const string& meth, const string& reqdata)
 static void scanCalls()
 {
   std::set<const void*> dones;
+  if (g_chan)
   {
     MutexLockGuard lock(g_chan->mutex_);
     for (std::map<int64_t, RpcChannel::OutstandingCall>::const_iterator it = g_chan->outstandings_.begin();
@@ -391,6 +399,8 @@ static void scanCalls()
   {
     CallRec* rec = g_calls[i];
     if (rec->resp && !rec->respDead && FREED(rec->resp)) { rec->respDead = true; g_ev.push_back("del:" + rec->label); }
+    // closure deleted without having run (~RpcChannel while the case is still going on)
+    if (rec->done && rec->closureDead && rec->runs == 0 && !rec->dropReported) { rec->dropReported = true; g_ev.push_back("drop:" + rec->label); }
     if (rec->done && rec->registered && !rec->closureDead && rec->runs == 0 && !rec->leakReported && !dones.count(rec->done))
     { rec->leakReported = true; g_ev.push_back("leak:" + rec->label); }
   }
@@ -424,6 +434,9 @@ int main()
   std::map<int, Helper*> helpers;
   bool svc = false;
   bool obs = false;          // observation mode: out-of-contract calls (response == NULL) are made all the same
+  bool down = false;         // the connection went DOWN in this case
+  int mode = 0;              // svc=<mode>
+  int64_t lastNext = 0;      // id_ as last seen (a destroyed channel cannot be asked)
   string line;
   while (std::getline(std::cin, line))
   {
@@ -443,7 +456,15 @@ int main()
       g_noStall = false;
       svc = false;
       obs = false;
-      for (size_t i = 2; i < w.size(); ++i) { if (w[i] == "svc=1") svc = true; if (w[i] == "obs=1") obs = true; }
+      down = false;
+      mode = 0;
+      lastNext = 0;
+      for (size_t i = 2; i < w.size(); ++i)
+      {
+        if (w[i] == "svc=1") { svc = true; mode = 1; }
+        if (w[i] == "svc=2") mode = 2;
+        if (w[i] == "obs=1") obs = true;
+      }
       InetAddress a(1), b(2);
       g_conn.reset(new TcpConnection(&loop, "c" + w[1], sv[0], a, b));
       g_conn->setCloseCallback([&loop](const TcpConnectionPtr& c) {
@@ -460,6 +481,7 @@ int main()
       {
         ownChannel.reset(new RpcChannel);
         g_chan = ownChannel.get();
+        if (mode == 2) g_chan->setServices(&server.services_);
         g_conn->setConnectionCallback([](const TcpConnectionPtr& c) { if (c->connected()) g_chan->setConnection(c); });
         g_conn->setMessageCallback(std::bind(&RpcChannel::onMessage, g_chan, _1, _2, _3));
         g_conn->connectEstablished();
@@ -508,7 +530,7 @@ int main()
       for (size_t i = 0; i < g_calls.size(); ++i)
       {
         CallRec* rec = g_calls[i];
-        if (rec->done && rec->closureDead && rec->runs == 0) dtor.push_back(rec->label);
+        if (rec->done && rec->closureDead && rec->runs == 0 && !rec->dropReported) dtor.push_back(rec->label);
         if (rec->done && !rec->closureDead && rec->runs == 0) leaked.push_back(rec->label);
         if (rec->resp && !FREED(rec->resp)) respleak.push_back(rec->label);
       }
@@ -552,7 +574,7 @@ int main()
         ok = bodyOf(w, 6, &ans, &corrupt);
       }
       // response == NULL violates the contract of google::protobuf::RpcChannel::CallMethod: not made
-      if (!ok || (w[2] != "1" && !obs)) rejected = true;
+      if (!ok || (w[2] != "1" && !obs) || g_chan == NULL) rejected = true;
       else
       {
         CallRec* rec = newCall(w[1], w[2] == "1", w[3] == "1");
@@ -574,7 +596,7 @@ int main()
     else if (k == "F")
     {
       int t = atoi(w[1].c_str());
-      if (helpers.count(t) || (w[3] != "1" && !obs)) rejected = true;
+      if (helpers.count(t) || (w[3] != "1" && !obs) || g_chan == NULL) rejected = true;
       else
       {
         Helper* h = new Helper;
@@ -622,6 +644,7 @@ int main()
         loop.doPendingFunctors();       // the loop thread performs the queued sendInLoop
       }
     }
+    else if (k == "BURST" && g_chan == NULL) rejected = true;
     else if (k == "BURST")
     {
       int n = atoi(w[1].c_str()), per = atoi(w[2].c_str());
@@ -642,7 +665,17 @@ int main()
       for (size_t t = 0; t < ths.size(); ++t) ths[t].join();
       g_suppressSend = true;
       g_burstFrames.clear();
-      loop.doPendingFunctors();
+      // the loop thread performs the queued sends; the peer reads; what did not fit into the socket buffer
+      // is written when the peer has made room (the loop would see POLLOUT)
+      for (int round = 0; round < 10000; ++round)
+      {
+        loop.doPendingFunctors();
+        drainWire();
+        if (g_conn->outputBuffer_.readableBytes() == 0) break;
+        Channel* ch = g_conn->channel_.get();
+        ch->set_revents(POLLOUT);
+        ch->handleEvent(Timestamp::now());
+      }
       drainWire();
       g_suppressSend = false;
       std::set<int64_t> ids;
@@ -675,7 +708,7 @@ int main()
       m.set_type(RESPONSE);
       m.set_id(static_cast<uint64_t>(strtoll(w[1].c_str(), NULL, 10)));
       bool corrupt = false;
-      if (!bodyOf(w, 2, &m, &corrupt)) rejected = true;
+      if (!bodyOf(w, 2, &m, &corrupt) || down) rejected = true;
       else { g_curCorrupt = corrupt; feed(m); g_curCorrupt = false; }
     }
     else if (k == "REQ")
@@ -688,7 +721,7 @@ int main()
       string pb; bool present, corrupt;
       if (!payloadOf(w[4], &pb, &present, &corrupt)) abort();
       if (present) m.set_request(pb);
-      feed(m);
+      if (down) rejected = true; else feed(m);
     }
     else if (k == "DONE")
     {
@@ -707,7 +740,22 @@ int main()
       RpcMessage m;
       m.set_type(ERROR);
       m.set_id(static_cast<uint64_t>(strtoll(w[1].c_str(), NULL, 10)));
-      feed(m);
+      if (down) rejected = true; else feed(m);
+    }
+    else if (k == "DOWN")
+    {
+      if (down) rejected = true;
+      else
+      {
+        drainWire();
+        ::shutdown(g_peer, SHUT_RDWR);             // the peer goes away: the connection reads EOF
+        Channel* ch = g_conn->channel_.get();
+        ch->set_revents(POLLIN);
+        ch->handleEvent(Timestamp::now());         // handleRead -> handleClose -> connection callback (DOWN) -> close callback
+        if (mode == 1) { g_chan = NULL; g_chanMutex = NULL; }   // RpcServer::onConnection dropped the channel
+        loop.doPendingFunctors();                  // connectDestroyed
+        down = true;
+      }
     }
     else { fprintf(stderr, "bad op %s\n", k.c_str()); return 2; }
 
@@ -717,7 +765,9 @@ int main()
     for (size_t i = 0; i < g_ev.size(); ++i) { if (i) ev += ","; ev += g_ev[i]; }
     if (ev.empty()) ev = "-";
     string outs, pend;
+    if (g_chan)
     {
+      lastNext = g_chan->id_.get();
       MutexLockGuard lock(g_chan->mutex_);
       for (std::map<int64_t, RpcChannel::OutstandingCall>::const_iterator it = g_chan->outstandings_.begin();
            it != g_chan->outstandings_.end(); ++it)
@@ -729,7 +779,7 @@ int main()
     for (std::map<int, Deferred>::const_iterator it = g_deferred.begin(); it != g_deferred.end(); ++it)
       if (!it->second.completed) { if (!pend.empty()) pend += ","; pend += std::to_string(it->first); }
     printf("%s ev=%s next=%lld outs=%s pend=%s\n", rejected ? "rejected" : "ok", ev.c_str(),
-           static_cast<long long>(g_chan->id_.get()), outs.empty() ? "-" : outs.c_str(), pend.empty() ? "-" : pend.c_str());
+           static_cast<long long>(lastNext), outs.empty() ? "-" : outs.c_str(), pend.empty() ? "-" : pend.c_str());
     fflush(stdout);
   }
   return 0;
